@@ -4,6 +4,10 @@ import json
 props=[json.loads(l) for l in open('properties.jsonl')]
 TRUST="Trusted base: the Go type checker/SSA builder of x/tools v0.29.0; the std functions on the allow-lists behave as documented; exported operations receive values produced by the repo's constructors."
 claimed={
+'C08':dict(technique="static analysis: abstract decision tables of the six SemVer comparators (AE) checked row by row against SemVer 2.0.0 section 11; regexp-group provenance; sibling cross-check",
+ text="Decided on the abstract decision table of each of semver/npm/cargo/hex/golang/nuget: major, minor, patch (and NuGet's revision) decide in that order before any later part (all later parts free); a non-empty pre-release sorts below the release; the pre-release is compared by a proven position-wise loop over its dot-separated identifiers whose every abstract position world agrees with the rows of section 11.4 (missing<present, numeric by integer value, numeric<alphanumeric, alphanumeric by text); an identifier is classified numeric only under an all-digits test (never by the conversion's error result alone); the field fed by the capture group after '+' is read by nothing reachable from Compare.",
+ note=TRUST+" Not decided: the strict grammar clause of the semver ecosystem (leading zeros, empty identifiers) — planned for the constructor tabulation; all-digit identifiers beyond 64 bits; that Go pseudo-version spellings are reconstructed faithfully (the text after the first '-' of the matched string is used).",
+ design="DESIGN.md 5 (C08)"),
 'C03':dict(technique="static analysis: field provenance (regexp capture group -> Version field -> Compare) + abstract-evaluator queries on Compare's decision table; regexp-shape rule for kind flags",
  text="Decided structurally for the regexp-parsed semver-shaped ecosystems: each leading numeric component is a digits-only capture group parsed by Atoi/ParseInt/big.Int into a numeric field (never compared as text); Compare orders versions that differ in exactly one such field by that field, most significant first (queries on the abstract decision table with all other fields tied); a version carrying a pre-release marker compares below the same version without it, and post markers above; kind flags that partition Compare are set only under patterns that cannot match plain dotted-numeric text (github's documented four-digit date shape excepted).",
  note=TRUST+" Not decided: numeric order inside the tokeniser/scanner ecosystems (alpine, alpm, conan, cran, gem, maven, debian, rpm: covered by C10-C14 where claimed); the set of accepted marker spellings at parse time (e.g. case folding of composer stabilities); composer isDev kind flag (set without a dominating match).",
